@@ -203,7 +203,7 @@ def run_cases(ctx, exe, label, cases, env=None):
         il, ml = impl[pos:pos + len(ops)], model[pos:pos + len(ops)]
         pos += len(ops)
         if len(il) < len(ops):
-            ctx.violation("implementation stopped on a tape case (%s): rc=%s %s" % (label, rc, err[-1200:]),
+            ctx.violation("implementation stopped on a tape case (%s): rc=%s %s" % (label, rc, vcheck.san_summary(err)),
                           {"kind": "crash", "build": label, "ops": ops, "stderr": err[-3000:], "impl": il})
             break
         verdict = oracle_case(ops, meta, il)
